@@ -220,6 +220,48 @@ func genC17Glueless(r *core.Rng) any {
 	}
 }
 
+// genC17Multi: two or three short paragraphs in one item list; after a forced break the next paragraph may
+// start with glue (a line that begins with a space), which the break discards.
+func genC17Multi(r *core.Rng) any {
+	var items []c17Item
+	integer := r.Bool()
+	w := r.Range(3, 8)
+	if integer {
+		w = math.Round(w)
+	}
+	sp := c17Item{K: 1, W: w, Y: w / 2, Z: w / 4}
+	if integer {
+		sp = c17Item{K: 1, W: w, Y: math.Max(1, math.Round(w/2)), Z: math.Max(1, math.Round(w/4))}
+	}
+	items = append(items, c17Item{K: 0, W: 0})
+	np := r.IntRange(2, 3)
+	for p := 0; p < np; p++ {
+		if p > 0 && r.Chance(0.6) {
+			g := sp
+			if r.Chance(0.3) {
+				g.W *= 2
+			}
+			items = append(items, g)
+		}
+		for wd, nw := 0, r.IntRange(2, 5); wd < nw; wd++ {
+			bw := r.Range(8, 45)
+			if integer {
+				bw = math.Round(bw)
+			}
+			items = append(items, c17Item{K: 0, W: bw})
+			if wd < nw-1 {
+				items = append(items, sp)
+			}
+		}
+		items = append(items, c17Item{K: 1, W: 0, Y: kpInf, Z: 0}, c17Item{K: 2, W: 0, P: -kpInf, F: false})
+	}
+	width := r.Range(60, 140)
+	if integer {
+		width = float64(r.IntRange(12, 28) * 5)
+	}
+	return &c17Case{Items: items, Width: width, Kind: "multi"}
+}
+
 func genC17Paragraph(r *core.Rng) any { return genC17Para(r, false) }
 func genC17Long(r *core.Rng) any      { return genC17Para(r, true) }
 
@@ -549,6 +591,7 @@ func init() {
 			{Name: "mixed", Quick: 1500, Thorough: 50000, Gen: genC17("mixed"), WitnessOnly: true, Note: "justified and ragged-right (negative stretch) spaces mixed in one paragraph, which the library itself never emits: 3e-4 infeasible / over-relaxed / sub-optimal results"},
 			{Name: "grid", Quick: 1500, Thorough: 50000, Gen: genC17("grid")},
 			{Name: "paragraph", Quick: 8000, Thorough: 200000, Gen: genC17Paragraph},
+			{Name: "multi", Quick: 4000, Thorough: 100000, Gen: genC17Multi, Note: "two or three paragraphs in one item list; a paragraph after a forced break may start with glue"},
 			{Name: "glueless", Quick: 3000, Thorough: 100000, Gen: genC17Glueless, Note: "boxes separated mostly by penalties on a narrow measure: lines without stretchable glue, relaxation of the stretch limit"},
 			{Name: "tuning", Quick: 4000, Thorough: 100000, Gen: genC17Tuning, Note: "paragraphs with many flagged penalties under other values of Tolerance, DemeritsLine, DemeritsFlagged, DemeritsFitness"},
 			{Name: "long", Quick: 60000, Thorough: 600000, Gen: genC17Long},
